@@ -304,8 +304,9 @@ class Engine(ExprMixin, CallMixin, StmtMixin):
             return
         self.obls.append(Obl(name, st.hyps(), goal, kind, props, watch=self.watch_terms(), meta=meta,
                              func=self.cur.key if self.cur else None))
-        if kind == 'P':
-            # vacuity guard: on at least one path the hypotheses of this clause must be satisfiable
+        if kind == 'P' and not is_false(g):
+            # vacuity guard: on at least one path the hypotheses of this clause must be satisfiable (not for a goal
+            # that is literally False - `no-raise[...]` - whose proof *is* the infeasibility of the path)
             self.obls.append(Obl(name + '#nonvacuous', st.hyps(), BoolVal(False), 'V', (),
                                  meta={'expect': 'sat', 'group': name + '#nonvacuous'},
                                  func=self.cur.key if self.cur else None))
